@@ -6,7 +6,7 @@ import json, glob, os, subprocess, sys, tempfile, concurrent.futures as cf
 V = os.path.dirname(os.path.dirname(os.path.abspath(__file__)))
 want = set(sys.argv[1:])
 muts = []
-for f in sorted(glob.glob(os.path.join(V, 'mutants', '*.json'))):
+for f in sorted(glob.glob(os.path.join(V, 'mutants', 'c[0-9][0-9].json'))):
     for m in json.load(open(f)):
         if not want or m['property'] in want:
             muts.append(m)
